@@ -2,12 +2,13 @@
    Status: PARTIAL.  Proved for all values: varint / zig-zag / length-prefixed varint round
    trips and the round trip of every scalar constant kind (int, uint, char, float as its 64
    bits incl. -0 and NaN payloads, bool, undefined) and of strings and bytes of any content,
-   each followed by arbitrary further bytes (so they compose inside containers).
+   each followed by arbitrary further bytes (so they compose inside containers), and of every
+   value built from those by arrays and maps nested to any depth (C04_container_rt_partial).
    Not yet proved (kept as a definition, decided on every run by cross decoding model <->
-   implementation and whole-program round trips): containers, compiled functions, the
+   implementation and whole-program round trips): sync maps, function objects, compiled functions, the
    Bytecode container with its file set. *)
 From Coq Require Import List ZArith Bool Lia.
-From Ugo Require Import Base.Res Codec.Varint Codec.VarintProofs Codec.Obj Codec.ObjProofs.
+From Ugo Require Import Base.Res Codec.Varint Codec.VarintProofs Codec.Obj Codec.ObjProofs Codec.ObjArrayProofs Codec.ObjMapProofs.
 Import ListNotations.
 Local Open Scope Z_scope.
 
@@ -72,6 +73,19 @@ Theorem C04_bytes_rt_partial :
   forall f s rest, zlen s < 2 ^ 63 -> decode_object (S f) (enc_bytes s ++ rest) = Ok (CBytes s, rest).
 Proof. exact bytes_rt. Qed.
 Print Assumptions C04_bytes_rt_partial.
+
+(* arrays and maps nested to any depth over scalars, strings and bytes; the size bound is the one
+   the length prefixes can express; map entries in the order the encoder wrote them *)
+Theorem C04_container_rt_partial :
+  forall n v, (depthm v <= n)%nat -> plainm v = true -> zlen (encode v) < 2 ^ 62 ->
+  forall f rest, (n <= f)%nat -> decode_object (S f) (encode v ++ rest) = Ok (v, rest).
+Proof. exact plainm_rt. Qed.
+Print Assumptions C04_container_rt_partial.
+
+Example C04_container_example :
+  let v := CArr [CInt (-5); CMap [([107], CArr [CStr [104; 105]; CArr []; CFloat 9223372036854775808]); ([], CMap [])]; CBytes []] in
+  plainm v = true /\ depthm v = 4%nat /\ decode (encode v ++ [1; 2]) = Ok (v, [1; 2]).
+Proof. vm_compute. repeat split; reflexivity. Qed.
 
 (* the sign of negative zero survives (the defect D04 of the unrepaired encoder) *)
 Example C04_negative_zero :
